@@ -14,6 +14,7 @@ mod c06;
 mod c11;
 mod c04;
 mod c05;
+mod c16;
 
 pub struct Budget {
     pub end: Instant,
@@ -34,6 +35,7 @@ fn run_one(pid: &str, input: &Value) -> Option<Value> {
         "C11" => c11::run(&input),
         "C04" => c04::run(&input),
         "C05" => c05::run(&input),
+        "C16" => c16::run(&input),
         _ => None,
     });
     match r {
@@ -58,6 +60,7 @@ fn gen(pid: &str, r: &mut rng::Rng) -> Option<Value> {
         "C11" => Some(c11::gen(r)),
         "C04" => Some(c04::gen(r)),
         "C05" => Some(c05::gen(r)),
+        "C16" => Some(c16::gen(r)),
         _ => None,
     }
 }
